@@ -154,8 +154,14 @@ fn c_m4<S: Prim, T: Prim>(c: &[S]) -> Option<Vec<String>> {
 fn run_kind<S: Prim, T: Prim>(ctx: &mut Ctx, kind: &str, k: usize, f: fn(&[S]) -> Option<Vec<String>>) {
     for c in component_cases::<S, T>(k) {
         let comps: Vec<String> = c.iter().map(|s| tok_opt(<T as NumCast>::from(*s))).collect();
-        let got = f(&c);
-        record(ctx, kind, S::NAME, T::NAME, comps, got);
+        let old = std::panic::take_hook();
+        std::panic::set_hook(Box::new(|_| {}));
+        let got = std::panic::catch_unwind(std::panic::AssertUnwindSafe(|| f(&c)));
+        std::panic::set_hook(old);
+        match got {
+            Ok(got) => record(ctx, kind, S::NAME, T::NAME, comps, got),
+            Err(_) => ctx.agree.rec(false, || format!("{}<{}>.cast::<{}>() panicked; components={:?}", kind, S::NAME, T::NAME, comps)),
+        }
     }
 }
 
